@@ -90,6 +90,7 @@ pub const S_NOTES: u16 = 12;
 pub const S_SYSV: u16 = 13;
 pub const S_GNU: u16 = 14;
 pub const S_DATA: u16 = 15;
+pub const S_INTO_ITER: u16 = 16;
 
 #[derive(Clone, Copy, PartialEq, Eq, Hash, Debug, PartialOrd, Ord)]
 pub struct Key {
@@ -349,6 +350,20 @@ macro_rules! emit_table {
             cnt += 1;
             if cnt > cap {
                 $s.runaway(key.sub(S_ITER, 0));
+                break;
+            }
+            let $sink = &mut *$s;
+            $emit;
+        }
+        $s.u(cnt as u64);
+        $s.done(true);
+        // the table consumed by value (IntoIterator)
+        $s.call(key.sub(S_INTO_ITER, 0));
+        let mut cnt = 0usize;
+        for $item in t.clone() {
+            cnt += 1;
+            if cnt > cap {
+                $s.runaway(key.sub(S_INTO_ITER, 0));
                 break;
             }
             let $sink = &mut *$s;
